@@ -20,13 +20,13 @@ Section KL.
   Definition gkl_radii (ri : T) (nr : nat) : list T :=
     let d := (none O - nsqr O ri) / kz nr in
     map (fun k => nsqrt O ((nsqr O ri + d * kz k) + d / nofZ O 16)) (seq 0 nr).
-  (* gkl_kernel, Kolmogorov: for the pair (i, j): radius_t = 0.5 sqrt(ri^2 + rj^2 - 2 ri rj cos(2 pi t/nth)),
+  (* gkl_kernel, Kolmogorov: for the pair (i, j): radius_t = 0.5 sqrt(max(ri^2 + rj^2 - 2 ri rj cos(2 pi t/nth), 0)),
      sf = stf_kolmogorov(radius), value = Re( fnorm (2 pi/nth) fft(sf) ), fnorm = 1/2 * (-1)/(2 pi (1 - ri^2)) *)
   Definition kernel_pair (ri : T) (nr : nat) (rad : list T) (i j : nat) : list T :=
     let nth_ := Nat.mul 5 nr in
     let fnorm := ((none O / two) * nopp O (none O)) / ((two * npi O) * (none O - nsqr O ri)) in
     let a := nth i rad (nzero O) in let b := nth j rad (nzero O) in
-    let sf := map (fun t => stf_kolmogorov O (nofQ O 5 10 * nsqrt O ((nsqr O a + nsqr O b) - ((two * a) * b) * ncos O (((kz t * two) * npi O) / kz nth_))))
+    let sf := map (fun t => stf_kolmogorov O (nofQ O 5 10 * nsqrt O (nmax O ((nsqr O a + nsqr O b) - ((two * a) * b) * ncos O (((kz t * two) * npi O) / kz nth_)) (nzero O))))
                   (seq 0 nth_) in
     map (fun z => (fnorm * ((two * npi O) / kz nth_)) * fst z) (dft O (map (cofR O) sf)).
   (* kernel[:, :, p] for azimuthal order p (symmetric: computed for j <= i and copied) *)
